@@ -353,33 +353,6 @@ Definition msg_fine (l : label) (s : state) : bool :=
   | _ => true
   end.
 
-(* record shapes no history produces (Proofs/DispatchInv.v): no record stays Idle; a stream whose PUSH_PROMISE is still
-   queued, or that waits for a concurrency slot, is one of ours and has received nothing *)
-Definition wf_shape (ro : role) (sid : N) (r : srec) : bool :=
-  match s_state r with Idle => false | _ => true end &&
-  (if s_ppush r then
-     negb (s_popen r) && is_server ro && is_local_init ro sid &&
-     match s_state r with ReservedLocal | HalfClosedRemote Streaming | Closed _ => true | _ => false end
-   else if s_popen r then
-     is_local_init ro sid &&
-     (if is_server ro
-      then match s_state r with HalfClosedRemote Streaming | Closed _ => true | _ => false end
-      else match s_state r with
-           | Open Streaming AwaitingHeaders | HalfClosedLocal AwaitingHeaders | Closed _ => true
-           | _ => false
-           end)
-   else true).
-
-(* 8.4 / 5.1.1: a PUSH_PROMISE is legal from a server to a client that has not disabled push, and promises a fresh
-   even identifier above all earlier ones *)
-Definition conn_fine (st : conn) (l : label) : bool :=
-  match l with
-  | LRecvPushPromise _ p _ _ =>
-    negb (is_server (c_role st)) && c_push_local st && is_server_init p &&
-    match c_recv_next st with Some n => n <=? p | None => false end
-  | _ => true
-  end.
-
 Lemma wf_shape_rec ro sid r : wf_shape ro sid r = true -> wf_rec ro r = true.
 Proof.
   unfold wf_shape, wf_rec. destruct (s_popen r); [|reflexivity].
